@@ -52,6 +52,19 @@ def stream_byte(stream, i):
     return x & 0xff
 
 
+_STREAMS = {}
+
+
+def stream_bytes(stream, a, b):
+    """bytes [a, b) of the deterministic stream (memoised: the monitor looks at the same range many times)"""
+    have = _STREAMS.get(stream, b"")
+    if len(have) < b:
+        if len(_STREAMS) > 64: _STREAMS.clear()
+        have = have + bytes(stream_byte(stream, i) for i in range(len(have), b))
+        _STREAMS[stream] = have
+    return have[a:b]
+
+
 def fnv(bs):
     h = 1469598103934665603
     for b in bs:
@@ -246,7 +259,7 @@ def _check(impl, scn):
             elif m == "write_loop" and len(op) >= 2 and op[1] in wl and op[1] not in wl_started:
                 wl_started.add(op[1]); S(o).pending_sends += 1
                 _, st_, tot_, ch_ = wl[op[1]]
-                S(o).pending_data[op[1]] = bytes(stream_byte(st_, i) for i in range(min(ch_, tot_)))
+                S(o).pending_data[op[1]] = stream_bytes(st_, 0, min(ch_, tot_))
                 S(o).max_pending = max(S(o).max_pending, len(S(o).pending_data))
             elif m == "read_loop": S(o).read_started = True
         elif tk[0] == "H":
@@ -262,11 +275,11 @@ def _check(impl, scn):
                 if ec != "ok": s.send_failed = True
             elif h in wl and h in wl_started:
                 o_, st_, tot_, ch_ = wl[h]; s = S(o_); n_ = int(d.get("n", 0)); off_ = int(d.get("off", 0))
-                s.sent += bytes(stream_byte(st_, off_ + i) for i in range(n_))
+                s.sent += stream_bytes(st_, off_, off_ + n_)
                 if ec != "ok" or off_ + n_ >= tot_:
                     s.pending_sends -= 1; wl_started.discard(h); s.pending_data.pop(h, None)
                     if ec != "ok": s.send_failed = True
-                else: s.pending_data[h] = bytes(stream_byte(st_, off_ + n_ + i) for i in range(min(ch_, tot_ - off_ - n_)))
+                else: s.pending_data[h] = stream_bytes(st_, off_ + n_, min(tot_, off_ + n_ + ch_))
             elif h in rl_sock:
                 s = S(rl_sock[h])
                 if ec == "ok":
